@@ -211,4 +211,10 @@ var boundsFor = func(c *Ctx, prop string, entries []*ssa.Function) {
 }
 
 // contractsFor returns the contract hooks of a property (nil = panic obligations only).
-func contractsFor(c *Ctx, prop string) *bounds.Hooks { return nil }
+func contractsFor(c *Ctx, prop string) *bounds.Hooks {
+	switch prop {
+	case "C05":
+		return c05Hooks(c)
+	}
+	return nil
+}
